@@ -57,6 +57,21 @@ Definition graph_fuel (g : graph) : nat :=
 (* TStart is implied by a THas miss; the harness does not record it *)
 Definition visible (e : tev) : bool := match e with TStart _ _ => false | _ => true end.
 
+(* Graph.get_hash right after the call, on the same caches (a barrier or hash-by-value node evaluates its parents) *)
+Definition hash_step (g : graph) (σ : cstore) (ins : list (nat * val)) (out : nat) (exp : option (option nhash)) : bool * cstore :=
+  match exp with
+  | None => (true, σ)
+  | Some e =>
+      let o := get_hash (shape g) (gens_of g) vapp (fun _ _ _ => false) cstore cget cset (fun σ => σ) ins out σ (graph_fuel g) in
+      (match o, e with
+       | Finished _ (SHashOut h' _) _, Some h => heqb h h'
+       | Finished _ _ _, _ => false
+       | Running _ _, _ => false
+       | _, None => true
+       | _, Some _ => false
+       end, sto_of o)
+  end.
+
 Definition run_call (g : graph) (σ : cstore) (ins : list (nat * val)) (out : nat) (bad : list string)
   : outcome cstore * list tev :=
   let (o, tr) := call_tr (shape g) (gens_of g) vapp (raises_in bad) cstore cget cset (fun σ => σ) ins out σ (graph_fuel g) in
@@ -67,7 +82,8 @@ Record xcall := {
   xc_bad : list string;             (* user functions that raise during this call *)
   xc_res : xres;                    (* observed: value or exception class *)
   xc_log : list call_rec;           (* observed: user-function calls in order *)
-  xc_trace : list tev               (* observed: EvictionCache / call events in order *)
+  xc_trace : list tev;              (* observed: EvictionCache / call events in order *)
+  xc_hash : option (option nhash)   (* observed right after the call: Graph.get_hash(inputs)[0].value as a term; Some None: it raised *)
 }.
 
 Record xcase := {
@@ -92,7 +108,8 @@ Fixpoint check_calls (g : graph) (out : nat) (σ : cstore) (k : nat) (cs : list 
       if negb (xres_eqb (xres_of o) (xc_res c)) then 10 * k + 1
       else if negb (list_eqb call_eqb (log_of o) (xc_log c)) then 10 * k + 2
       else if negb (list_eqb tev_eqb tr (xc_trace c)) then 10 * k + 3
-      else check_calls g out (sto_of o) (S k) rest
+      else let (okh, σ2) := hash_step g (sto_of o) (xc_ins c) out (xc_hash c) in
+           if negb okh then 10 * k + 5 else check_calls g out σ2 (S k) rest
   end.
 
 Definition leaves_of (g : graph) : list nat :=
@@ -124,7 +141,8 @@ Fixpoint check_hops (gs : list hgraph) (σ : cstore) (k : nat) (ops : list hop) 
       if negb (xres_eqb (xres_of o) (xc_res c)) then 10 * k + 1
       else if negb (list_eqb call_eqb (log_of o) (xc_log c)) then 10 * k + 2
       else if negb (list_eqb tev_eqb tr (xc_trace c)) then 10 * k + 3
-      else check_hops gs (sto_of o) (S k) rest
+      else let (okh, σ2) := hash_step (hg G) (sto_of o) (xc_ins c) (hout G) (xc_hash c) in
+           if negb okh then 10 * k + 5 else check_hops gs σ2 (S k) rest
   end.
 
 Definition check_history (c : hcase) : nat :=
